@@ -121,3 +121,6 @@ impl<T: Clone + PartialEq> Probe<T> {
         }
     }
 }
+
+#[cfg(foca_verif)]
+pub(crate) mod verif;
